@@ -1,6 +1,7 @@
 package main
 
 import (
+	"time"
 	"strconv"
 	"strings"
 
@@ -10,7 +11,10 @@ import (
 
 // itemsWire renders the real lexer's token stream for the model parser.
 func itemsWire(src string, exprMode bool) (string, bool) {
-	items := parse.VerifLex("", src, exprMode, 200000)
+	var items []parse.VerifItem
+	if c := guarded(5*time.Second, func() { items = parse.VerifLex("", src, exprMode, 200000) }); c != "" {
+		return "Error:0:" + hxs(c), false
+	}
 	var parts []string
 	hasFloat := false
 	for _, it := range items {
@@ -79,12 +83,14 @@ func mutateSrc(r *RNG, s string) string {
 
 func genParseExpr(g *G) {
 	n := g.N(8000, 150000)
-	eg := &exprGen{r: g.R, funcs: true, redundantParens: 15, illTyped: 10}
+	eg := &exprGen{r: g.R, funcs: true, redundantParens: 15, illTyped: 10, rawBytes: 8}
 	add := func(src, class string) {
 		toks, hasFloat := itemsWire(src, true)
 		g.Add(Case{Req: req("parseexpr", hxs(src), toks), NT: strings.Count(toks, ";") >= 3, Class: class, Note: src, NoModel: hasFloat && !haveF64})
 	}
-	for _, h := range []string{"", " ", "1", "1 2 3", "(", ")", "[", "[:", "[:]", "[1,", "f(", "f(1", "$a[", "$a?.b?[0]", "a.b.c", "1 ? 2", "1 ? 2 : 3 : 4 : 5", "- - 1", "not", "'a", "$", "$a.1a", "0x", "08", "1.", "99999999999999999999", "-9223372036854775808", "9223372036854775808", "0x7FFFFFFFFFFFFFFF", "0x8000000000000000", "['a': 1, 'a': 2]", "[1: 2]", "['a': 1, 2: 3]", "'\\u00e9\\n\\'\\\\'", "'\\q'", "'\\u12'", "$a.b.c[1]['k'].3?.4"} {
+	for _, h := range []string{"", " ", "1", "1 2 3", "(", ")", "[", "[:", "[:]", "[1,", "f(", "f(1", "$a[", "$a?.b?[0]", "a.b.c", "1 ? 2", "1 ? 2 : 3 : 4 : 5", "- - 1", "not", "'a", "$", "$a.1a", "0x", "08", "1.", "99999999999999999999", "-9223372036854775808", "9223372036854775808", "0x7FFFFFFFFFFFFFFF", "0x8000000000000000", "['a': 1, 'a': 2]", "[1: 2]", "['a': 1, 2: 3]", "'\\u00e9\\n\\'\\\\'", "'\\q'", "'\\u12'", "$a.b.c[1]['k'].3?.4",
+		// string literals that are not valid UTF-8, with and without escapes (fast and slow path of unquoteString)
+		"'\xff'", "'\xff\\n'", "'\xc3'", "'\xc3\\''", "['\xff\\'x': 1]", "['\xff': 1]", "'\xe2\x82\\t\xac'", "'\\\xff'", "'\xef\xbf\xbd\\n'", "'\xed\xa0\x80\\\\'", "'\\u00ff\xff'", "'a\xf0\x9f\x98\x80\\n\xf0\x9f'"} {
 		add(h, "hand")
 	}
 	for i := 0; i < n; i++ {
